@@ -38,7 +38,7 @@ class WigBedProp(Prop):
         return super().compare(case, il, ml)
 
     def view(self, lines):
-        return [l for l in lines if l.split(" ")[0] in self.view_tags]
+        return [bbgen.canon_zoom_answer(l) for l in lines if l.split(" ")[0] in self.view_tags]
 
     def nontrivial(self, case, il):
         return bool(case.tags & {"multi_chrom", "multi_section", "nt"})
